@@ -308,7 +308,8 @@ class Vector():
 			a = a.to_object()            # now object vector
 			a[2] = "ryan"                # allowed - can mix types
 		"""
-		return Vector(list(self._underlying), dtype=object, name=self._name, as_row=self._display_as_row)
+		has_none = any(x is None for x in self._underlying)
+		return Vector(list(self._underlying), dtype=DataType(object, nullable=has_none), name=self._name, as_row=self._display_as_row)
 
 	def alias(self, new_name):
 		"""
@@ -355,6 +356,8 @@ class Vector():
 		# Python Date interceptors
 		if target_type is date:
 			def caster(x):
+				if isinstance(x, datetime):
+					return x.date()  # a datetime is not a date-kind element
 				if isinstance(x, date):
 					return x
 				return date.fromisoformat(x)
